@@ -12,12 +12,16 @@ on each iteration or stops.  What is NOT proved (and is measured by the harness 
 real allocator does with those requests, wall-clock time, stack depth, and everything in the crate
 that is not modelled (see the manifest entry).
 
-The property does NOT hold for the code as it stands in one modelled place: the embedded-signature
-subpacket parser copies the remaining bytes at every nesting level (D19).  The full statement is
-kept below in a comment, `embedded_copy_partial` is the guarded version, and `embedded_copy_quadratic`
-/ `embedded_copy_not_linear` prove the negation on the witness family `nestSig`.  The armor
-header accumulator re-parses its whole back buffer on every refill: memory is bounded
-(`armor_backbuffer`), the work is not linear (`armor_reparse_quadratic`).
+Embedded signatures (D19, repaired in the tree by `MAX_EMBEDDED_SIGNATURE_DEPTH`): `embedded_sig`
+copies the rest of the subpacket body and recurses, but refuses to do so below the extracted
+nesting cap, so `embedded_copy_linear` / `embedded_recursion_bounded` hold at full strength (every
+input, every nesting).  The `uncapped_*` theorems are regression theorems about the code WITHOUT the
+cap (`sigCopyUncapped`): quadratic copy volume and unbounded recursion on the witness family
+`nestSig` — they say what the cap is for and break nothing if it changes.
+
+Still open (known finding D19b): the armor header accumulator re-parses its whole back buffer on
+every refill: memory is bounded (`armor_backbuffer`), the work is not linear
+(`armor_reparse_quadratic`).
 -/
 namespace Rpgp.C19
 open Rpgp Rpgp.Resource
@@ -136,62 +140,115 @@ theorem subpacket_vec_linear (declared : Nat) (area : Bytes) (n cap : Nat)
   obtain ⟨h1, h2, h3⟩ := subpacketsShape_spec declared area n cap h
   exact ⟨h1, h2, h3, by omega⟩
 
-/-
-Full statement of the property for signature parsing (does NOT hold for the code as it is, D19):
+/-! ## embedded signatures (`signature/de.rs embedded_sig` with the nesting cap) -/
 
-  theorem embedded_copy_linear (b : Bytes) : sigCopyOf b ≤ a * b.length + c     -- for fixed a, c
+/-- the cap the tree uses (re-extracted), and that it admits the one nesting RFC 9580 needs (the
+primary-key-binding signature inside a subkey binding signature) -/
+theorem embedded_depth_cap : Gen.maxEmbeddedSignatureDepth = 4 ∧ 1 ≤ Gen.maxEmbeddedSignatureDepth := by decide
 
-`embedded_sig` copies the rest of the subpacket body with `i.rest()` and recurses; the copies of all
-enclosing levels are alive during the recursion.
--/
+/-- generic form: with ANY cap, a signature parser running at nesting `depth` copies at most
+`(cap − depth)·|body|` bytes, whatever the body contains -/
+theorem embedded_copy_linear_cap (cap fuel depth : Nat) (b : Bytes) :
+    (sigCost cap fuel depth b).copy ≤ (cap - depth) * b.length :=
+  (sig_area_cost_le cap fuel depth).1 b
 
-/-- **`parse_alloc_linear` (partial).** The bytes copied by `embedded_sig` are at most
-`depth × |input|`: linear for every input whose embedded signatures nest at most `D` deep. -/
-theorem embedded_copy_partial (b : Bytes) (D : Nat) (hD : sigDepthOf b ≤ D) :
-    sigCopyOf b ≤ D * b.length := by
-  have h := (sig_area_copy_le (b.length + 1)).1 b
-  exact Nat.le_trans h (Nat.mul_le_mul_right _ hD)
+/-- **`parse_alloc_linear` for signatures, full strength.** For EVERY signature packet body — any
+nesting of Embedded Signature subpackets, any declared lengths — the bytes `embedded_sig` copies
+(all levels together, hence also the bytes alive at any moment) are at most `cap·|input|` -/
+theorem embedded_copy_linear (b : Bytes) :
+    (sigCostOf b).copy ≤ Gen.maxEmbeddedSignatureDepth * b.length := by
+  have := embedded_copy_linear_cap Gen.maxEmbeddedSignatureDepth (b.length + 1) 0 b
+  simpa [sigCostOf] using this
+
+/-- **recursion depth.** No (transitively) nested `Signature::try_from_reader_nested` ever runs with
+`depth > cap`: at most `cap + 1` signature parsers are on the stack, for every input -/
+theorem embedded_recursion_bounded (b : Bytes) :
+    (sigCostOf b).reach ≤ Gen.maxEmbeddedSignatureDepth := by
+  have := ((sig_area_reach Gen.maxEmbeddedSignatureDepth (b.length + 1) 0).1 b).2
+  simpa [sigCostOf] using this
+
+/-- the capped parser on the witness family (v6, every depth that fits the encoding): accepted iff
+`d ≤ cap`; only the levels actually entered are copied; the deepest parser runs at `min d cap` -/
+theorem nest_capped (d : Nat) (h : 34 + 40 * d < 4294967296) :
+    sigCostOf (nestSig 6 d) =
+      ⟨nestCopyCapped 6 d Gen.maxEmbeddedSignatureDepth, decide (d ≤ Gen.maxEmbeddedSignatureDepth),
+       min d Gen.maxEmbeddedSignatureDepth⟩ ∧
+    nestCopyCapped 6 d Gen.maxEmbeddedSignatureDepth ≤ Gen.maxEmbeddedSignatureDepth * (34 + 40 * d) := by
+  have hl := nestSig_length 6 d
+  have e : nestLen 6 d = 34 + 40 * d := by simp [nestLen]
+  have := nest6_capped Gen.maxEmbeddedSignatureDepth d ((nestSig 6 d).length + 1) 0
+    (by rw [hl, e]; omega) (by rw [e]; exact h) (Nat.zero_le _)
+  refine ⟨by simpa [sigCostOf] using this, ?_⟩
+  have := nestCopyCapped_le 6 d Gen.maxEmbeddedSignatureDepth
+  rwa [e] at this
+
+/-- … and for v4 signatures (16-bit area lengths) -/
+theorem nest_capped_v4 (d : Nat) (h : 13 + 19 * d < 65536) :
+    sigCostOf (nestSig 4 d) =
+      ⟨nestCopyCapped 4 d Gen.maxEmbeddedSignatureDepth, decide (d ≤ Gen.maxEmbeddedSignatureDepth),
+       min d Gen.maxEmbeddedSignatureDepth⟩ := by
+  have hl := nestSig_length 4 d
+  have e : nestLen 4 d = 13 + 19 * d := by simp [nestLen]
+  have := nest4_capped Gen.maxEmbeddedSignatureDepth d ((nestSig 4 d).length + 1) 0
+    (by rw [hl, e]; omega) (by rw [e]; exact h) (Nat.zero_le _)
+  simpa [sigCostOf] using this
+
+/-- boundary: nesting exactly `cap` deep is accepted, `cap + 1` is refused — and the refused
+1000-deep witness (40 034 octets) costs 159 736 copied octets instead of 20 014 000 -/
+theorem nest_cap_boundary :
+    (sigCostOf (nestSig 6 Gen.maxEmbeddedSignatureDepth)).ok = true ∧
+    (sigCostOf (nestSig 6 (Gen.maxEmbeddedSignatureDepth + 1))).ok = false ∧
+    (sigCostOf (nestSig 6 1000)).ok = false ∧ (sigCostOf (nestSig 6 1000)).copy = 159736 ∧
+    (sigCostOf (nestSig 6 1000)).reach = 4 := by
+  have h4 := (nest_capped Gen.maxEmbeddedSignatureDepth (by decide)).1
+  have h5 := (nest_capped (Gen.maxEmbeddedSignatureDepth + 1) (by decide)).1
+  have h1000 := (nest_capped 1000 (by decide)).1
+  rw [h4, h5, h1000]
+  decide
+
+/-! ### regression theorems about the code WITHOUT the cap (`sigCopyUncapped`, the tree before the
+D19 repair): what the cap prevents -/
 
 /-- the witness family: length, copy volume and recursion depth of `nestSig 6 d` (v6 signatures,
 32-bit area lengths) for every depth that fits the encoding -/
-theorem nest_copy_closed (d : Nat) (h : 34 + 40 * d < 4294967296) :
+theorem uncapped_nest_copy_closed (d : Nat) (h : 34 + 40 * d < 4294967296) :
     (nestSig 6 d).length = 34 + 40 * d ∧
-    sigCopyOf (nestSig 6 d) = 34 * d + 40 * (d * (d - 1) / 2) ∧
-    sigDepthOf (nestSig 6 d) = d := by
+    sigCopyUncappedOf (nestSig 6 d) = 34 * d + 40 * (d * (d - 1) / 2) ∧
+    sigDepthUncappedOf (nestSig 6 d) = d := by
   have hl := nestSig_length 6 d
   have e : nestLen 6 d = 34 + 40 * d := by simp [nestLen]
   obtain ⟨h1, h2⟩ := nest6_cost d ((nestSig 6 d).length + 1) (by rw [hl, e]; omega) (by rw [e]; exact h)
   refine ⟨by rw [hl, e], ?_, h2⟩
-  rw [sigCopyOf, h1]; simp [nestCopyClosed]
+  rw [sigCopyUncappedOf, h1]; simp [nestCopyClosed]
 
 /-- … and for v4 signatures (16-bit area lengths, depth ≤ 3448, input ≤ 65525 octets) -/
-theorem nest_copy_closed_v4 (d : Nat) (h : 13 + 19 * d < 65536) :
+theorem uncapped_nest_copy_closed_v4 (d : Nat) (h : 13 + 19 * d < 65536) :
     (nestSig 4 d).length = 13 + 19 * d ∧
-    sigCopyOf (nestSig 4 d) = 13 * d + 19 * (d * (d - 1) / 2) ∧
-    sigDepthOf (nestSig 4 d) = d := by
+    sigCopyUncappedOf (nestSig 4 d) = 13 * d + 19 * (d * (d - 1) / 2) ∧
+    sigDepthUncappedOf (nestSig 4 d) = d := by
   have hl := nestSig_length 4 d
   have e : nestLen 4 d = 13 + 19 * d := by simp [nestLen]
   obtain ⟨h1, h2⟩ := nest4_cost d ((nestSig 4 d).length + 1) (by rw [hl, e]; omega) (by rw [e]; exact h)
   refine ⟨by rw [hl, e], ?_, h2⟩
-  rw [sigCopyOf, h1]; simp [nestCopyClosed]
+  rw [sigCopyUncappedOf, h1]; simp [nestCopyClosed]
 
-/-- **Negation on a concrete witness (D19).** The 40 034-octet signature `nestSig 6 1000` makes the
+/-- **Without the cap (D19 as it was).** The 40 034-octet signature `nestSig 6 1000` makes the
 parser copy 20 014 000 octets (all of them alive at the deepest point) and recurse 1000 deep:
 more than the oracle's `8·|input| + 4 MiB`. -/
-theorem embedded_copy_quadratic :
-    (nestSig 6 1000).length = 40034 ∧ sigCopyOf (nestSig 6 1000) = 20014000 ∧
-    sigDepthOf (nestSig 6 1000) = 1000 ∧
-    8 * (nestSig 6 1000).length + 4 * 1024 * 1024 < sigCopyOf (nestSig 6 1000) := by
-  obtain ⟨h1, h2, h3⟩ := nest_copy_closed 1000 (by decide)
+theorem uncapped_embedded_copy_quadratic :
+    (nestSig 6 1000).length = 40034 ∧ sigCopyUncappedOf (nestSig 6 1000) = 20014000 ∧
+    sigDepthUncappedOf (nestSig 6 1000) = 1000 ∧
+    8 * (nestSig 6 1000).length + 4 * 1024 * 1024 < sigCopyUncappedOf (nestSig 6 1000) := by
+  obtain ⟨h1, h2, h3⟩ := uncapped_nest_copy_closed 1000 (by decide)
   rw [h1, h2, h3]
   decide
 
 /-- no linear bound `a·|input| + c` with `a, c < 2^20` holds: the witness of depth `2·(a + c) + 2`
 exceeds it -/
-theorem embedded_copy_not_linear (a c : Nat) (ha : a < 1048576) (hc : c < 1048576) :
-    ∃ b : Bytes, b.length < 4294967296 ∧ a * b.length + c < sigCopyOf b := by
+theorem uncapped_embedded_copy_not_linear (a c : Nat) (ha : a < 1048576) (hc : c < 1048576) :
+    ∃ b : Bytes, b.length < 4294967296 ∧ a * b.length + c < sigCopyUncappedOf b := by
   refine ⟨nestSig 6 (2 * (a + c) + 2), ?_⟩
-  obtain ⟨h1, h2, _⟩ := nest_copy_closed (2 * (a + c) + 2) (by omega)
+  obtain ⟨h1, h2, _⟩ := uncapped_nest_copy_closed (2 * (a + c) + 2) (by omega)
   rw [h1, h2]
   refine ⟨by omega, ?_⟩
   -- d(d-1)/2 with d = 2k+2 is (k+1)(2k+1)
@@ -388,7 +445,9 @@ example : takeBytesOk 3 [[1], [2, 3, 4]] = true := by decide
 example : (takeSeq [2, 4294967295, 5] [[1, 2, 3], [4]]).map (·.cap) = [2, 1024] := by decide
 example : subpacketsShape 65535 [2, 101, 0, 2, 102, 0] = some (2, 32) := by decide
 example : subpacketsShape 1 [2, 101, 0, 2, 102, 0] = some (2, 4) := by decide
-example : sigCopyOf (nestSig 4 2) = 13 + 32 ∧ sigDepthOf (nestSig 4 2) = 2 := by decide
+example : sigCopyUncappedOf (nestSig 4 2) = 13 + 32 ∧ sigDepthUncappedOf (nestSig 4 2) = 2 := by decide
+example : sigCostOf (nestSig 4 2) = ⟨13 + 32, true, 2⟩ := by rw [nest_capped_v4 2 (by decide)]; decide
+example : sigCostOf (nestSig 4 5) = ⟨89 + 70 + 51 + 32, false, 4⟩ := by rw [nest_capped_v4 5 (by decide)]; decide
 example : argon2Admit 1 4 21 = true ∧ argon2Admit 33 1 10 = false ∧ argon2Admit 1 4 4 = false ∧ argon2Admit 1 1 22 = false := by decide
 example : (readFromBuf (fun _ => .incomplete) 10 [[1, 2, 3, 4], [5, 6, 7, 8], [9, 10, 11, 12], [13]]).res = .tooLarge := by decide
 example : (mpiRead 16385 [[1, 2]]).1 = .tooLarge ∧ (mpiRead 16 [[1, 2, 3]]).1 = .ok 2 := by decide
